@@ -118,6 +118,14 @@ def reachable_without(cfg, target, *, avoid_edge=None, avoid_node=None, start=No
     seen, parent = search(starts, avoid_edge=avoid_edge, avoid_node=avoid_node, exc=exc, weak=weak)
     if target in seen:
         return path_to(parent, target)
+    if not weak and exc:
+        # A target that lies in an `except` block entered only by implicit exceptions (a KeyError of a lookup, whatever an unknown call raises) is not
+        # reachable over strong edges at all: "no path avoiding the guard" would then hold vacuously.  Such a target is judged over weak edges.
+        seen0, _ = search(starts, exc=exc, weak=False)
+        if target not in seen0:
+            seen1, parent1 = search(starts, avoid_edge=avoid_edge, avoid_node=avoid_node, exc=exc, weak=True)
+            if target in seen1:
+                return path_to(parent1, target)
     return None
 
 
